@@ -233,3 +233,11 @@ package platform
 //@   after call WriteReturn#1 set stepErr = result
 //@   loop 1 continue #the-next-step-runs-only-after-a-step-without-error stepErr == nil
 //@   at return assert #a-failing-step-ends-the-sequence-with-its-error stepErr != nil ==> result == stepErr
+
+// ---- C17: a platform hands out the driver it built, of the type its definition declares, or a platform error ------------
+//@ func (*Platform).GetGenericDriver [C17]
+//@   ensures #the-generic-driver-that-was-built-is-handed-out p.genericDriver != nil ==> result.0 == p.genericDriver && result.1 == nil
+//@   ensures #no-generic-driver-is-a-platform-error p.genericDriver == nil ==> result.0 == nil && isErr(result.1, util.ErrPlatformError)
+//@ func (*Platform).GetNetworkDriver [C17]
+//@   ensures #the-network-driver-that-was-built-is-handed-out p.networkDriver != nil ==> result.0 == p.networkDriver && result.1 == nil
+//@   ensures #no-network-driver-is-a-platform-error p.networkDriver == nil ==> result.0 == nil && isErr(result.1, util.ErrPlatformError)
